@@ -79,6 +79,18 @@ def main():
             harnesses = [h for h in harnesses if h.name not in dropped]
     if args.only:
         harnesses = [h for h in harnesses if args.only in h.name]
+    if args.tier == "thorough":
+        # members that ran out of time or memory in a complete thorough run are listed (value 99999) in
+        # lib/slow_harnesses.json: they are not run again; they are reported as not decided, not as success
+        try:
+            slow = json.load(open(os.path.join(HERE, "lib", "slow_harnesses.json")))
+        except Exception:
+            slow = {}
+        skipped = [h.name for h in harnesses if slow.get(h.name, 0) >= 99999]
+        if skipped:
+            print(f"[{pid}] {len(skipped)} harness(es) known not to finish (time/memory) are skipped and NOT claimed: " + ", ".join(x.split("::")[-1] for x in skipped[:8]) + (" ..." if len(skipped) > 8 else ""))
+            harnesses = [h for h in harnesses if h.name not in skipped]
+            plan.outside = list(plan.outside) + ["harnesses that do not finish within the time/memory limits on this machine (not decided): " + ", ".join(x.split("::")[-1] for x in skipped)]
     log_dir = os.path.join(runner.BUILD, "logs", pid)
     print(f"[{pid}] tier={args.tier} seed={seed}: {len(harnesses)} harnesses, {len(plan.zqueries)} solver queries", flush=True)
 
